@@ -273,9 +273,11 @@ impl Leg for Many {
             1 => (proptest::collection::vec(prop::sample::select(b"ACGT".to_vec()), 2..=3), 3usize..=10).prop_map(|(u, r)| crate::util::Bytes(u.repeat(r))),
         ];
         let n = prop_oneof![
-            2 => 65_530usize..=65_560,
-            3 => 131_060usize..=131_100,
-            1 => 70_000usize..=tier.pick(150_000, 400_000),
+            1 => 65_530usize..=65_560,
+            1 => 131_060usize..=131_100,
+            // a parallel iterator hands each worker table a part of the batch: per-table counts beyond 2^16
+            // need several times 2^16 records in the file
+            4 => 140_000usize..=tier.pick(330_000, 700_000),
         ];
         (proptest::collection::vec(lows(), 1..=3), n, proptest::collection::vec((any::<u32>(), gen::seq(3, 40, true).prop_map(crate::util::Bytes)), 1..=4), 1usize..=3, gen::square_strategy(), any::<bool>(), prop_oneof![3 => Just(1usize), 1 => 2usize..=4])
             .prop_map(|(base, n, strays, k, s, norm, threads)| ManyCase { base, n, strays, k, s, norm, threads })
